@@ -494,7 +494,11 @@ class Server(utils.EventEmitter):
         logger.debug(f'GATT Indicate from server: {_bearer_id(bearer)} {indication}')
 
         # Wait until we can send (only one pending indication at a time per connection)
-        async with self.indication_semaphores[bearer]:
+        semaphore = self.indication_semaphores[bearer]
+        async with semaphore:
+            if self.indication_semaphores.get(bearer) is not semaphore:
+                # The bearer was closed while we were waiting for our turn
+                raise core.InvalidStateError('bearer closed')
             assert self.pending_confirmations[bearer] is None
 
             # Create a future value to hold the eventual response
